@@ -1160,7 +1160,12 @@ func (f *fnTr) block(stmts []ast.Stmt, em *emitter, inLoop bool) bool {
 			}
 			em.add(v.pre...)
 		case *ast.IfStmt:
-			f.ifStmt(x, em, inLoop)
+			if f.ifStmt(x, em, inLoop) {
+				if i != len(stmts)-1 {
+					f.bad(x, "statements after an if/else that always returns")
+				}
+				return true
+			}
 		case *ast.SwitchStmt:
 			if f.switchStmt(x, em, inLoop) {
 				if i != len(stmts)-1 {
@@ -1265,9 +1270,10 @@ func (f *fnTr) assign(x *ast.AssignStmt, em *emitter) {
 	}
 }
 
-func (f *fnTr) ifStmt(x *ast.IfStmt, em *emitter, inLoop bool) {
-	if x.Else != nil {
-		f.bad(x, "if with else")
+// ifStmt returns true if the statement returns on every path (if … { …return } else { …return }).
+func (f *fnTr) ifStmt(x *ast.IfStmt, em *emitter, inLoop bool) bool {
+	if x.Else != nil && x.Init != nil {
+		f.bad(x, "if with both an init statement and an else branch")
 	}
 	// if _, err := io.ReadFull(cryptoRander, buf); err != nil { return "", err }
 	if x.Init != nil {
@@ -1296,7 +1302,7 @@ func (f *fnTr) ifStmt(x *ast.IfStmt, em *emitter, inLoop bool) {
 										f.bad(x, "the source variable cryptoRander is assigned in %s", where)
 									}
 									em.add(fmt.Sprintf("Go.bind (Go.readFull %s) fun %s =>", leanId(buf.Name), leanId(buf.Name)))
-									return
+									return false
 								}
 							}
 						}
@@ -1347,6 +1353,36 @@ func (f *fnTr) ifStmt(x *ast.IfStmt, em *emitter, inLoop bool) {
 	em.add("if " + c.term + " then (")
 	em.lines = append(em.lines, sub.lines...)
 	em.add(") else")
+	if x.Else == nil {
+		return false
+	}
+	// else branch: a block (or an else-if chain) that also returns on every path
+	switch e := x.Else.(type) {
+	case *ast.BlockStmt:
+		sub2 := &emitter{indent: em.indent}
+		saved2 := map[string]string{}
+		for k, v := range f.vars {
+			saved2[k] = v
+		}
+		if !f.block(e.List, sub2, inLoop) {
+			f.bad(x, "else branch that does not end in return")
+		}
+		for k := range f.vars {
+			if _, ok := saved2[k]; !ok {
+				delete(f.vars, k)
+				delete(f.origin, k)
+			}
+		}
+		em.lines = append(em.lines, sub2.lines...)
+		return true
+	case *ast.IfStmt:
+		if !f.ifStmt(e, em, inLoop) {
+			f.bad(x, "else-if chain that does not return on every path")
+		}
+		return true
+	}
+	f.bad(x, "else branch")
+	return false
 }
 
 // switch tag { case c1, c2: …return…  default: …return… }: an integer tag, constant cases, every clause
